@@ -131,6 +131,27 @@ func (worldS) Gen(r *core.Rand, env *core.Env) SCase {
 	if (env.Property == "C01" || env.Property == "C02" || env.Property == "C07") && r.Intn(20) == 0 {
 		bigAt = r.Intn(nops) // one write whose log record exceeds 2 MiB compressed
 	}
+	// An ordered chunk above 512 KiB (the block size of the byte-for-byte copy that an
+	// out-of-order merge uses for series without late data) next to a series that does get
+	// late data, then the merge: seeded change C03-b garbled the copied chunk.
+	if (env.Property == "C03" && r.Intn(12) == 0) || (env.Property == "C02" && r.Intn(25) == 0) {
+		if c.NSeries < 2 {
+			c.NSeries = 2
+		}
+		m := r.Intn(c.NMst)
+		wid++
+		op := SOp{K: "w", ID: wid}
+		pad := r.Range(30, 60)
+		for t := 0; t < sNumTimes; t++ {
+			op.Rows = append(op.Rows, SRow{M: m, S: 0, T: t, F: 8 | r.Intn(16), P: pad})
+		}
+		hi := r.Range(sNumTimes/2, sNumTimes-1)
+		op.Rows = append(op.Rows, SRow{M: m, S: 1, T: hi, F: 15})
+		c.Ops = append(c.Ops, op, SOp{K: "flush"})
+		wid++
+		c.Ops = append(c.Ops, SOp{K: "w", ID: wid, Rows: []SRow{{M: m, S: 1, T: r.Intn(hi), F: 15}}}, SOp{K: "flush"}, SOp{K: "merge", Force: true})
+		flushes += 2
+	}
 	for i := 0; i < nops; i++ {
 		if i == bigAt {
 			wid++
